@@ -631,6 +631,18 @@ class StatsCtx(FsmCtx):
             from sim.profiles import restapi
             if rng.chance(0.5):
                 body = restapi.RestCtx.body_for(self, rng, "send/update")
+                if isinstance(body, dict) and body.get("attr") and rng.chance(0.2):
+                    # a request the encoder cannot build: must be refused and must not be counted
+                    bad = rng.pick(["nexthop6", "prefix33", "aspath", "origin"])
+                    if bad == "nexthop6":
+                        body["attr"]["3"] = "fe80::1"
+                    elif bad == "prefix33":
+                        body["nlri"] = ["10.0.0.0/33"]
+                    elif bad == "aspath":
+                        body["attr"]["2"] = [[2, ["x"]]]
+                    else:
+                        body["attr"]["1"] = "igp"
+                    self.stats["gen:unencodable_rest_update"] += 1
                 return ["rest", "POST", URL + "send/update", "ok", body]
             body = {"afi": rng.pick([1, 1, 2]), "safi": rng.pick([1, 1, 128])}
             if rng.chance(0.6):
@@ -730,7 +742,7 @@ class StatsProfile(FsmProfile):
             "quiescent points and at the end; each answer is compared with "
             "the frames by type in the current connection's write log and delivered stream; non-trivial = reached OpenSent; "
             "distinct = distinct cell sequence")
-    probes = ["op:hfail", "nonzero_sent_Updates", "nonzero_sent_RouteRefresh", "stat_comparisons", "nonzero_sent_Opens", "nonzero_sent_Keepalives", "nonzero_sent_Notifications",
+    probes = ["gen:unencodable_rest_update", "op:hfail", "nonzero_sent_Updates", "nonzero_sent_RouteRefresh", "stat_comparisons", "nonzero_sent_Opens", "nonzero_sent_Keepalives", "nonzero_sent_Notifications",
               "nonzero_recv_Opens", "nonzero_recv_Keepalives", "nonzero_recv_Updates", "nonzero_recv_Notifications",
               "nonzero_recv_RouteRefresh"]
 
